@@ -670,6 +670,8 @@ def _run(report, execs, obs, ndispatch):
     report.extra["dispatch_table_entries"] = ndispatch
     report.add_out_of_reach("value-equality of the returned expression and the quantity-substitution diagram as for-all proofs",
                             "expression values are abstracted in the sidecar model (only literal-zero/quantity flags and dimensions are tracked); bounded executable contract instead")
+    from . import c04 as _c04
+    _c04.shared_callee_obligations(report, UNIT)
     from ..contracts import audit
     audit.run(report)
     report.trust("CPython 3.12 (subset of DESIGN 3.A)", "z3 5.1 / cvc5 1.4", "SymPy constructors, isinstance facts from the real classes", "sympy.physics.units dimension system")
